@@ -188,6 +188,8 @@ class C10(Check):
                     sv["16"] = sorted(set(sv["16"]) | set(sessions_))
             plan["drops_out"] = True
             plan["deaf_dsc"] = rng.random() < 0.4
+            # ... and/or falls back on its own (session timer) in the middle of a run of unsupported ids
+            plan["spont_drop"] = sorted(rng.sample(range(1, 180), rng.choice([1, 2, 4]))) if rng.random() < 0.5 else []
         plan["reset"] = rng.random() < 0.2
         plan["scan_response_ids"] = rng.random() < 0.25
         # model dimension "response code": implemented services that answer every request with one fixed NRC
@@ -271,6 +273,7 @@ class C10(Check):
         model = {int(s): {int(k): v for k, v in sv.items()} for s, sv in plan["model"].items()}
         ecu = ModelECU(plan["ecu_seed"], model, {"p_identifier": plan["p_identifier"], "p_correct_payload_format": plan["p_format"]})
         ecu.quirks = {(s_, k_): n_ for s_, k_, n_ in plan.get("quirks") or []}
+        ecu.spont_drop = set(plan.get("spont_drop") or [])
         ecu.garble = {(s_, k_): bytes.fromhex(j_) for s_, k_, j_ in plan.get("garble") or []}
         for did, k in plan.get("busy_first") or []:
             for pdu in self._id_probes(plan, did):
@@ -362,6 +365,8 @@ class C10(Check):
             bump(res["faults"], "ecu_drops_out_of_session_on_probe")
         if plan.get("skip_expr"):
             bump(res["faults"], "skip_as_range_expression")
+        if getattr(ecu, "spont_fired", 0):
+            bump(res["faults"], "ecu_fell_back_to_default_session_on_its_own", ecu.spont_fired)
         if plan.get("quirks"):
             bump(res["faults"], "service_with_fixed_negative_response_code")
         if plan.get("busy_first"):
